@@ -258,6 +258,36 @@ def statFollow (fs : Fs) : Nat → Path → Option (Path × Nat × Inode)
         | some q => statFollow fs fuel q
       | _ => some (p, i, nd)
 
+/-- the errno of a failing `walk`: a missing component gives `ENOENT`, a non-directory on the way `ENOTDIR` -/
+def walkErr (fs : Fs) : Path → List String → Errno
+  | _, [] => .ENOENT
+  | cur, c :: cs =>
+    match fs.view cur with
+    | some (_, nd) =>
+      if nd.kind = .dir then
+        if c = "" ∨ c = "." then walkErr fs cur cs
+        else if c = ".." then (match cur with | [] => .ENOENT | _ :: up => walkErr fs up cs)
+        else walkErr fs (c :: cur) cs
+      else .ENOTDIR
+    | none => .ENOENT
+
+/-- the errno of `os.stat(p)` when `statFollow` finds nothing (`FileNotFoundError` is `ENOENT` only) -/
+def statErr (fs : Fs) : Nat → Path → Errno
+  | 0, _ => .ENOSYS
+  | fuel + 1, p =>
+    match fs.view p with
+    | none => fs.missingErr p
+    | some (_, nd) =>
+      match nd.kind with
+      | .sym t =>
+        match t.toList with
+        | '/' :: _ => .ENOENT
+        | cs =>
+          match walk fs p.tail (splitSlash [] cs) with
+          | none => walkErr fs p.tail (splitSlash [] cs)
+          | some q => statErr fs fuel q
+      | _ => .ENOENT
+
 /-! ## contents entries -/
 
 inductive EKind where
@@ -468,7 +498,7 @@ def mergeDir (env : Env) (s : St) (x : Entry) : St × Except Exc Unit :=
   | some (_, _, nd) =>
     if nd.kind ≠ .dir then (s, .error .cannotOverwrite) else dirPermsExisting env s x nd
   | none =>
-    if s.fs.parentErr x.loc = some .ENOTDIR then (s, .error (.os .ENOTDIR))   -- NotADirectoryError is not caught
+    if statErr s.fs 8 x.loc ≠ .ENOENT then (s, .error (.os (statErr s.fs 8 x.loc)))   -- only FileNotFoundError is caught
     else
       match s.sys env (.mkdir x.loc (mkdirMode env x)) with
       | (s1, none) => s1.sysAll env (permsOps x x.loc ++ permsOps x x.loc)
